@@ -26,3 +26,4 @@ import MicroHttp.Props.Tables
 #print axioms MicroHttp.C08.polls_end_idle
 #print axioms MicroHttp.Tables.client_write_state
 #print axioms MicroHttp.Tables.client_enqueue
+#print axioms MicroHttp.Tables.no_shared_state
